@@ -323,4 +323,57 @@ def k5(ctx, kr):
     kr.exhaustive = True
     kr.outside = ['rules and templates without two independent declarations']
 
-KERNELS = [k1, k3, k4, k5]
+
+# ---------------------------------------------------------------------------------------------- K6 a fault is never hidden by the company it keeps
+def _k6_job(job):
+    uname, cname, order, split = job
+    from . import tplcommon as TP
+    from .units import FAULTY, COMPANIONS
+    decls, code, labs = FAULTY[uname]
+    unit = ''.join(decls); comp = COMPANIONS[cname]
+    seq = [unit, comp] if order == 0 else [comp, unit]
+    files = [''.join(seq)] if not split else seq
+    outs, part = TP.analyze_files(_CTX, files)
+    for o in outs:
+        if o == 'rejected': part.inconc('%s + %s does not parse' % (uname, cname)); continue
+        kind, ds = o
+        if not any(d[0] == code for d in ds):
+            part.add('C03/K6/%s/masked-by-%s' % (uname, cname), 'the fault of unit %s (%s) is not reported when the valid declaration(s) %r %s it%s: analysis returns %s' % (uname, code, cname, 'follow' if order == 0 else 'precede',
+                     ' in a second file' if split else '', [d[0] for d in ds] or 'success'), {'files': files}, ('unit_masked', (uname, cname)))
+        if len(part.samples) < 1: part.samples.append({'unit': uname, 'companion': cname, 'codes': [d[0] for d in ds]})
+    if not part.findings and len(part.validate) < 1: part.validate.append(('unit_masked', (uname, cname)))
+    return part
+
+@replay_factory('unit_masked')
+def _replay_unit_masked(uname, cname):
+    def rp(ctx):
+        from . import tplcommon as TP
+        from .units import FAULTY, COMPANIONS
+        decls, code, labs = FAULTY[uname]
+        unit = ''.join(decls); comp = COMPANIONS[cname]
+        bad = []
+        for files in ([unit + comp], [comp + unit], [unit, comp], [comp, unit]):
+            got = TP.real_analyze(ctx, files)
+            if got == 'panic': return True, {'files': files, 'result': 'panic'}
+            if got == 'rejected': return None, {'files': files, 'result': 'rejected'}
+            if not any(g[0] == code for g in got): bad.append({'files': files, 'codes': [g[0] for g in got]})
+        return bool(bad), {'unit': uname, 'companion': cname, 'fault_code': code, 'not_reported_in': bad[:2]}
+    return rp
+
+@kernel('K6 analyze.fault_not_masked_by_companions')
+def k6(ctx, kr):
+    global _CTX
+    _CTX = ctx
+    from .units import FAULTY, COMPANIONS, CURABLE
+    units = [u for u in FAULTY if u not in CURABLE]
+    kr.bounds = ('%d single-fault units (%s) x %d valid companion declarations (%s), the companion before or after the unit, in the same file or in a second file: parse_program + stages::analyze on the MIR, every toposort tie-break; '
+                 'the fault\'s problem code is still reported' % (len(units), ', '.join(units), len(COMPANIONS), ', '.join(COMPANIONS)))
+    comps = list(COMPANIONS) if ctx.tier != 'quick' else ['function_block', 'configuration']
+    jobs = [(u, c, o, sp) for u in units for c in comps for o in (0, 1) for sp in (False, True)]
+    for part in par_map(_k6_job, jobs): merge_part(kr, part)
+    P = ctx.program()
+    kr.functions = fn_paths(P, getattr(kr, '_enc', set()))[:150]
+    kr.exhaustive = True
+    kr.outside = ['faults that a companion may legitimately cure (undeclared type / enumeration / instance / task); more than one companion; hash order of the project map (K1)']
+
+KERNELS = [k1, k3, k4, k5, k6]
